@@ -64,7 +64,7 @@ def main():
     kw = {}
     server = None
     if kind == 'remote':
-        from pyworkers.remote_server import spawn_server
+        from common import spawn_server
         server = spawn_server(('127.0.0.1', 0))
         kw = {'host': server.addr, 'main_path': ''}
     out = {'calls': [], 'spec': spec}
